@@ -75,8 +75,17 @@ func EnrichWorkload(r *Rand, w *Workload, scratch string) {
 		notes = append(notes, "common-passes")
 	}
 	if w.Builders && r.Chance(2, 3) {
-		builders := (&ast.BuilderGenerator{}).FromAST(schemas)
-		bvs := BuildersViewOf(schemas, builders)
+		// derived inside a simulated run: on odd IRs the generator itself may loop or recurse
+		var bvs []BuilderView
+		CurrentDesc.Store("enrich: derive builders for " + w.Name)
+		ex := Simulate(simrt.Schedule{Default: simrt.Canonical}, nil, pipelineMaxTicks, func() error {
+			builders := (&ast.BuilderGenerator{}).FromAST(schemas)
+			bvs = BuildersViewOf(schemas, builders)
+			return nil
+		})
+		if ex.Panic != nil {
+			bvs = nil
+		}
 		if len(bvs) > 0 {
 			dir := "cfg/veneers"
 			nfiles := 1 + r.Intn(3)
